@@ -598,7 +598,28 @@ func (g *PG) builtinCall(sc *scope, ty Ty, depth int) Val {
 		}
 		return g.literal(TySym)
 	default:
-		switch pick("get", "identity", "car", "nth", "aref", "if-any", "typed", "combinator", "combinator", "bytes", "get-default", "curry") {
+		switch pick("get", "identity", "car", "nth", "aref", "if-any", "typed", "combinator", "combinator", "bytes", "get-default", "curry", "expr", "expr") {
+		case "expr":
+			g.stat("expr")
+			a1, a2 := g.Expr(sc, TyInt, depth-1), g.Expr(sc, TyInt, depth-1)
+			switch g.n(0, 7, "exprkind") {
+			case 0:
+				return L(L(S("expr"), L(S("+"), S("%"), I(1))), a1)
+			case 1:
+				return L(L(S("expr"), L(S("-"), S("%1"), S("%2"))), a1, a2)
+			case 2:
+				return L(L(S("expr"), L(S("list"), S("%2"), S("%&rest"))), a1, a2, I(9))
+			case 3:
+				return Call("map", QS("list"), L(S("expr"), L(S("*"), S("%"), S("%"))), g.Expr(sc, TyList, depth-1))
+			case 4:
+				return L(L(S("expr"), L(S("list"), S("%1"), S("%&optional"))), a1)
+			case 5:
+				return L(L(S("expr"), L(S("+"), S("%"), S("%2"))), a1, a2) // invalid mix
+			case 6:
+				return L(L(S("expr"), L(S("list"), S("%3"))), a1, a2) // too few arguments for %3
+			default:
+				return Call("funcall", L(S("expr"), L(S("cons"), S("%1"), QL(I(0)))), a1)
+			}
 		case "bytes":
 			g.stat("bytes")
 			b := Call("to-bytes", g.strLit())
